@@ -14,5 +14,8 @@ GroupProgramsC16(g) ==
   IF g[1] = "root" THEN
      LET r == g[2]  p1 == Step1(r)  p2 == UNION { Step1(e) : e \in p1 } IN
      {r} \cup p1 \cup p2 \cup { <<"Bin", "===", p, KwL("null")>> : p \in p1 } \cup { <<"Bin", "==", r, KwL("null")>> }
+     \* null on either side, strict and loose, and a typed nil against another spelling of null
+     \cup { <<"Bin", op, KwL("null"), r>> : op \in {"===", "!==", "==", "!="} } \cup { <<"Bin", op, r, KwL("null")>> : op \in {"===", "!=="} }
+     \cup { <<"Bin", op, x, r>> : op \in {"===", "!=="}, x \in {Id("np"), Id("undefined"), Id("nl"), <<"Sel", KwL("this"), "np", FALSE>>} }
   ELSE UNION { Step1(e) : e \in Step1(<<"Sel", g[2], g[3], g[4]>>) }
 =============================================================================
